@@ -32,6 +32,9 @@ def shards(tier):
     out.append({"name": "live.np.jit", "mode": "jit", "backend": "np", "fn": "live", "n": 120 if q else 6000})
     out.append({"name": "live.np.interp", "mode": "interp", "backend": "np", "fn": "live", "n": 40 if q else 1200})
     out.append({"name": "live.torch", "mode": "jit", "backend": "torch", "fn": "live", "n": 25 if q else 800})
+    out.append({"name": "forms.np.jit", "mode": "jit", "backend": "np", "fn": "progs", "n": 30 if q else 1500, "forms": 1})
+    out.append({"name": "big.np.jit", "mode": "jit", "backend": "np", "fn": "big", "n": 3 if q else 60})
+    out.append({"name": "big.torch", "mode": "jit", "backend": "torch", "fn": "big", "n": 1 if q else 10})
     return out
 
 
@@ -179,3 +182,51 @@ def run_live(shard, rec, B):
                     if ok:
                         back = CC.read(B, item[0], obj)
                         rec.check("live.backward", CC.same(back, (item[2], item[3], item[4])), dict(desc, kind=item[0]), len(prog) > 1)
+
+
+def run_big(shard, rec, B):
+    """wide registers (N up to 130, around word-size thresholds): small gates placed on low, middle and high qubits so that
+    overlaps happen only on high qubits; all 9 CliffordCircuit configurations + Circuit; oracle = gate maps applied row by row."""
+    rng = gen.rng_for(rec)
+    classes = ["CliffordCircuit"] + (["Circuit"] if hasattr(B.circuit, "Circuit") else [])
+    Ns = [33, 64, 65, 66, 70, 129, 130] if B.name == "np" else [33, 66]
+    for t in range(shard["n"]):
+        for N in Ns:
+            hot = sorted(set([0, 1, N // 2, N - 3, N - 2, N - 1] + [q for q in (31, 32, 63, 64, 65, 127, 128) if q < N]))
+            prog = []
+            for _ in range(int(rng.integers(4, 14))):
+                n = int(rng.integers(1, 4))
+                qs = sorted(int(x) for x in rng.choice(hot, size=min(n, len(hot)), replace=False))
+                kind = ["fmap", "bmap", "setgen"][int(rng.integers(3))]
+                if kind == "setgen":
+                    prog.append({"kind": "setgen", "G": gen.rand_nonid(rng, len(qs)), "PG": 2 * int(rng.integers(2)), "qubits": qs})
+                else:
+                    mg, mp = O.random_map(rng, len(qs))
+                    prog.append({"kind": kind, "mg": mg, "mp": mp, "qubits": qs})
+            desc = {"N": N, "program": [{"kind": s["kind"], "qubits": s["qubits"]} for s in prog]}
+            L = 6
+            gs = np.stack([gen.sparse_string(rng, N, 3) for _ in range(L)])
+            for j in range(L):
+                for q in rng.choice(hot, size=2, replace=False):
+                    gs[j, 2 * q:2 * q + 2] = rng.integers(0, 2, 2)
+            ps = rng.integers(0, 4, L)
+            eg, ep = gs.copy(), ps.copy()
+            for s in prog:
+                mg, mp = PR.spec_map(s, N)
+                eg, ep = O.map_image_list(mg, mp, eg, ep)
+            for cls in classes:
+                for variant in CC.VARIANTS:
+                    for comp in (CC.COMPILE if N <= 70 else ("none", "layers")):
+                        sub = "fwd.%s.%s.%s" % (cls, variant, comp)
+                        ok, res = rec.attempt(sub, desc, lambda: CC.configure(B, cls, prog, N, variant, comp))
+                        if not ok or res[0] is None:
+                            continue
+                        circ, gates = res
+                        if gates is not None:
+                            bad, pos = PR.check_layering(circ, gates)
+                            rec.check("trace.order", not bad, dict(desc, cls=cls, variant=variant), True, observed=bad[:4])
+                        obj = B.PauliList(gs.copy(), ps.copy())
+                        ok, _ = rec.attempt(sub, desc, lambda: circ.forward(obj))
+                        if ok:
+                            lg, lp = B.gsps(obj)
+                            rec.check(sub, np.array_equal(lg, eg) and np.array_equal(lp, ep % 4), dict(desc, cls=cls, variant=variant, comp=comp), True)
